@@ -80,15 +80,17 @@ ASSUMPTIONS = [
     'nappe selector of cones and the point pairs of X/Y/Z surfaces',
     'ASCII input; numeric tokens without underscores, inf or nan; data cards '
     'use plain numbers, nR and nJ only (no I, M, LOG)',
-    'surface numbers below 1000 (no implicit TRCL surfaces), no LIKE n BUT, '
-    'rectangular lattices (LAT=1) whose cells have no complement operand',
+    'surface numbers below 1000 (no implicit TRCL surfaces); LIKE n BUT is '
+    'expanded by the harness the way apply_but does (geometry and options of '
+    'n followed by the BUT options; no chains generated); lattice cells have '
+    'no complement operand; hexagonal lattices with 6 or 8 planes only',
 ]
 HEADER = ('From Coq Require Import List NArith ZArith Bool String Ascii '
           'PrimFloat.\nFrom T4V Require Import Base.Str Base.Scalar '
           'C17.Model C17.Exec.\nOpen Scope string_scope.\n')
 
 ALL_FEATURES = ['tr', 'surftr', 'fill', 'filltr', 'lat', 'latopt', 'trcl',
-                'impcards', 'facets', 'compl', 'mats']
+                'impcards', 'facets', 'compl', 'mats', 'like']
 
 # ---------------------------------------------------------------------------
 # known-finding classes: narrow predicates over (fault class, where, deck)
@@ -180,6 +182,9 @@ CORPUS = [
      'ETransformation'),
     ('star_trcl_m', _b(c1='*trcl=(0 0 0 0 90 90 90 0 90 90 90 0 -1)'), [],
      'ETransformation'),
+    ('like_trcl_m', _b(cells='4 like 1 but trcl=(0 0 9 1 0 0 0 1 0 0 0 1 -1)\n'),
+     [], 'ETransformation'),
+    ('control_like', _b(cells='4 like 1 but trcl=(0 0 9)\n'), [], None),
     ('fill_m', _b(c1='fill=3 (0 0 0 1 0 0 0 1 0 0 0 1 -1)',
                   cells='4 0 -1 u=3 imp:n=1\n'), [], 'ETransformation'),
     ('star_fill_m', _b(c1='*fill=3 (0 0 0 0 90 90 90 0 90 90 90 0 -1)',
